@@ -343,6 +343,9 @@ structure HttpRoundTrip (H : Http) : Prop where
   scheme_print_parse : ∀ w v, H.parseScheme w = some v → H.parseScheme v = some v
   /-- `PathAndQuery::from_str(p.as_str())` gives `p` back -/
   path_print_parse : ∀ w v, H.parsePath w = some v → H.parsePath v = some v
+  /-- a `PathAndQuery` never holds a `#`: the parser cuts the fragment off (so the `:path` h3 writes
+      from an `http::Uri` passes the receiver's own check, `pathSyntax`, D-12g) -/
+  path_print_no_fragment : ∀ w v, H.parsePath w = some v → pathSyntax v = true
   /-- a built `Uri` has the parts it was built from -/
   uri_parts : ∀ s a p u, H.uriBuild s a p = some u → u = { scheme := s, authority := some a, path := p }
   /-- scheme + authority + path-and-query, each a value of the crate, always build -/
